@@ -76,7 +76,7 @@ fn instr_accessor(name: &str) -> Option<(&'static str, Ty)> {
 fn err_class_of(text: &str) -> &'static str {
     if text.contains("end_execution") {
         "EFinish"
-    } else if text.contains("Divide by zero") {
+    } else if text.contains("Divide by zero") || text.contains("Divide error") {
         "EDivZero"
     } else if text.contains("unimplemented operand kind") || text.contains("Unsupported segment register") {
         "EOperand"
@@ -737,6 +737,19 @@ impl Translator {
             let v = self.atom(v)?;
             fields.insert(fname, v.code);
         }
+        // struct update syntax `..rest`: missing fields come from the rest expression
+        if let Some(rest) = &s.rest {
+            let r = self.tr_expr(rest, None)?;
+            let r = self.atom(r)?;
+            if last == "MemOperand" {
+                for f in ["base", "index", "segment", "scale", "displacement"] {
+                    if !fields.contains_key(f) {
+                        let (proj, _) = memop_field(f).unwrap();
+                        fields.insert(f.to_string(), format!("({} {})", proj, r.code));
+                    }
+                }
+            }
+        }
         let g = |k: &str| fields.get(k).cloned().ok_or_else(|| TrErr(format!("missing field {}", k)));
         match last.as_str() {
             "Immediate" => Ok(Val::pure(format!("(OpImmediate {} {})", paren(&g("data")?), paren(&g("size")?)), Ty::Operand)),
@@ -939,6 +952,11 @@ impl Translator {
                 Ok(Val::pure(format!("(Some {})", paren(&v.code)), Ty::Opt(Box::new(v.ty))))
             }
             ("AxError", "from") => Ok(Val::pure("EOther", Ty::Err)),
+            ("Register", "from") => {
+                let v = self.tr_expr(&args[0], Some(&Ty::Reg))?;
+                let v = self.atom(v)?;
+                self.convert(v, &Ty::IReg, c.span())
+            }
             ("SupportedRegister", "from") => {
                 let v = self.tr_expr(&args[0], Some(&Ty::IReg))?;
                 let v = self.atom(v)?;
@@ -1141,6 +1159,12 @@ impl Translator {
                 Ok(Val::pure(format!("({} {})", n, r.code), Ty::Bool))
             }
             (Ty::Opt(t), "unwrap") | (Ty::Opt(t), "expect") => Ok(Val::out(format!("(unwrap_o {})", r.code), (**t).clone())),
+            (Ty::Opt(t), "unwrap_or") => {
+                let inner = (**t).clone();
+                let d = self.tr_expr(args[0], Some(&inner))?;
+                let d = self.atom(d)?;
+                Ok(Val::pure(format!("(match {} with Some x_ => x_ | None => {} end)", r.code, paren(&d.code)), inner))
+            }
             (Ty::Opt(_), "is_some") => Ok(Val::pure(format!("(is_some {})", r.code), Ty::Bool)),
             (Ty::Opt(_), "is_none") => Ok(Val::pure(format!("(negb (is_some {}))", r.code), Ty::Bool)),
             (Ty::Int(_), _) | (Ty::Lit, _) => {
